@@ -58,6 +58,13 @@ def _case(draw, tier):
         if c["method"] == "map" and c.get("mc") is None and draw(st.booleans()):
             c["mc"] = 2  # the bounded map path has its own ordering bookkeeping
         c["nitems"] = max(c["nitems"], 2)
+    if c["kind"] == "g2" and c["runner"] == "sync" and prob(draw, 0.5):
+        # function nodes draw from the global `random` module, which the caller seeded (sync runner: one deterministic order)
+        c["rand_nodes"] = True
+        for n in c["nodes"]:
+            if n["k"] == "func":
+                n["rand"] = True
+                n.pop("cache", None)
     c["self_unregister"] = prob(draw, 0.25)  # the failing observer removes itself from the caller's list when it fails
     c["unhashable"] = prob(draw, 0.2)  # observers written as @dataclass / with __eq__ are not hashable
     c["exc"] = draw(st.sampled_from(["message", "message", "empty", "bare_class", "multiline", "non_str_args", "keyerror_empty"]))
